@@ -14,7 +14,7 @@ EXHAUSTIVE = {}
 
 def generate(rng, tier):
     cases = []
-    n = 2500 if tier == "thorough" else 350
+    n = 2500 * TH if tier == "thorough" else 350
     specs = specs_pool(rng, 40 if tier == "thorough" else 8)
     for k in range(n):
         sp = rng.choice(specs)
